@@ -8,7 +8,8 @@
 EXTENDS Integers, Sequences, FiniteSets, TLC
 
 \* stall_body: headers and the first bytes of the body, then silence (the backend keeps the connection open for 9 s)
-Alphabet == {"refuse", "hang_headers", "reset_after_headers", "short_body", "garbage", "s500", "slow_body", "stall_body",
+\* stall_body_upgrade: the same stall, the request carries "Connection: Upgrade / Upgrade: x" and the backend answers 200 anyway
+Alphabet == {"refuse", "hang_headers", "reset_after_headers", "short_body", "garbage", "s500", "slow_body", "stall_body", "stall_body_upgrade",
              "client_abort_up", "client_abort_down"}
 Features == [cb : BOOLEAN, rl : BOOLEAN, passive : BOOLEAN, plugins : BOOLEAN]
 Strategies == {"round_robin", "least_connections", "weighted_round_robin", "ip_hash", "ip_hash_consistent"}
